@@ -12,8 +12,8 @@ CHECKS = {
  'C08': ('exploration', '4.C08', 'seeded add/remove histories (several versions per id, prefix ids) + specifier battery against a model of the documented table'),
  'C10': ('exploration', '4.C10', 'seeded histories and sessions; navigation/equality/translation laws against the model in every reached store state'),
  'C11': ('exploration', '4.C11', 'seeded histories and scopes; relation multisets, closures and simple paths against the model; termination by statement budget'),
- 'C12': ('exploration', '4.C12', 'seeded histories in which dependency providers come and go; expand set, warning and ILI-mapped relations against the model'),
- 'C16': ('exploration', '4.C16', 'one battery transcript per fresh interpreter under different PYTHONHASHSEED values, repeated in-process; byte equality'),
+ 'C12': ('exploration', '4.C12', 'seeded histories in which dependency providers come and go; expand set, warning and ILI-mapped relations against the model; long-lived default-mode Wordnets re-queried after later additions; hub worlds of 40-300 children'),
+ 'C16': ('exploration', '4.C16', 'one battery transcript per fresh interpreter under different PYTHONHASHSEED values, repeated in-process; byte equality; twin Wordnet objects (one queried, one not) compared after seeded remove/re-add histories'),
  'C19': ('exploration', '4.C19', 'seeded interleavings of add(lexicons)/add(ILI index)/remove paired with their commuted plans; model ILI table + nothing-else-changes'),
  'C20': ('fault_enumeration', '4.C20', 'every truncation offset and every single structural mutation of sampled files, through every carrying route; reject-whole + unchanged database + scan/load agreement'),
 }
